@@ -632,7 +632,20 @@ func TestC19(t *testing.T) {
 		case 3:
 			expr = []string{"avg(`[]`)", "to_number('inf')", "sum(`[1e308,1e308]`)", "-1", "-", "--", "-ast", "-input", "", " ", "a\nb", "'é'", "\"é\"", "@", "`\"x\"`"}[rapid.IntRange(0, 14).Draw(t, "special")]
 		case 4:
-			expr = genBytes(t)
+			if rapid.Bool().Draw(t, "edgeSpace") {
+				// a valid expression with a character at its edge that Unicode, but not
+				// JMESPath, regards as white space
+				sp := []string{"\u00a0", "\u2003", "\v", "\f", "\u0085", "\u3000", "\u2028", "\ufeff", "\u200b", "\u1680"}[uni(t, 10, "sp")]
+				f := fragCore
+				inner := genExpr(t, doc, f)
+				if rapid.Bool().Draw(t, "lead") {
+					expr = sp + inner
+				} else {
+					expr = inner + sp
+				}
+			} else {
+				expr = genBytes(t)
+			}
 		default:
 			f := fragAll
 			f.mismatch = 10
@@ -777,7 +790,9 @@ func richDoc() *rDoc {
 	m1 := &rMember{Name: "x", Age: 1, Tags: []string{"t1", "t2"}}
 	m2 := &rMember{Name: "y", Age: 2, Tags: []string{}, Ptr: m1}
 	m3 := &rMember{Name: "", Age: 0, Tags: []string{"t3"}}
-	g1 := rGroup{Title: "g1", Members: []*rMember{m1, nil, m2, nil}, Items: []rMember{*m1, *m3}, Vals: [][]float64{{1, 2}, {}, {3}}, Flag: true}
+	zero := &rMember{Tags: []string{}}
+	m3.Ptr = zero
+	g1 := rGroup{Title: "g1", Members: []*rMember{m1, nil, m2, nil, zero}, Items: []rMember{*m1, *m3}, Vals: [][]float64{{1, 2}, {}, {3}}, Flag: true}
 	g2 := rGroup{Title: "g2", Members: []*rMember{}, Items: []rMember{}, Vals: [][]float64{}, Sub: &g1}
 	g3 := rGroup{Title: "", Members: []*rMember{nil, m3}, Items: []rMember{*m2}, Vals: [][]float64{{4}}, Sub: &g2, Flag: true}
 	return &rDoc{Groups: []rGroup{g1, g2, g3}, GroupPtrs: []*rGroup{&g3, nil, &g1}, One: g1, Names: []string{"b", "", "a"}, Nums: []float64{2, 0, 1}}
@@ -825,8 +840,8 @@ func predRichEquiv(c Case) (r Result) {
 }
 
 var richLHS = []string{"Groups", "GroupPtrs", "One.Members", "One.Items", "Names", "Nums", "One.Vals", "Nil", "One.Sub", "Groups[2].Sub", "Groups[0].Members", "[Groups, GroupPtrs]", "Groups[*].Members", "GroupPtrs[*].Items", "@", "One"}
-var richOps = []string{"", "[*]", "[]", "[?@]", "[?Name]", "[?Flag]", "[?Members]", "[?!Sub]", "[?Title && Flag]", "[?Sub || Flag]", "[1:]", "[::-1]", "[*][*]", "[][]", "[*].Members[]", "[].Members", "[*].Members[*]", "[].Items[]", "[*].Vals[]", "[].Vals[][]", "[0]", "[-1]", "[1]"}
-var richRHS = []string{"", ".Name", ".Title", ".Members", ".Members[0]", ".Members[1]", ".Members[0].Name", ".[Name]", ".{n: Name, t: Title}", ".Tags[0]", ".Members[].Name", ".Sub.Title", ".Sub.Sub.Members[]", ".Ptr.Name", ".[Members[]]", ".{m: Members[*].Name}", ".length(Members)", ".Items[*].Tags[]", ".[Ptr, Name]", ".Ptr.[Name]"}
+var richOps = []string{"", "[*]", "[]", "[?@]", "[?Name]", "[?Flag]", "[?Ptr]", "[?!Ptr]", "[?Ptr || Name]", "[?Ptr && Age]", "[?Members]", "[?!Sub]", "[?Title && Flag]", "[?Sub || Flag]", "[1:]", "[::-1]", "[*][*]", "[][]", "[*].Members[]", "[].Members", "[*].Members[*]", "[].Items[]", "[*].Vals[]", "[].Vals[][]", "[0]", "[-1]", "[1]"}
+var richRHS = []string{"", ".Name", ".Title", ".Members", ".Members[0]", ".Members[1]", ".Members[0].Name", ".[Name]", ".{n: Name, t: Title}", ".Tags[0]", ".Members[].Name", ".Sub.Title", ".Sub.Sub.Members[]", ".Ptr.Name", ".[Members[]]", ".{m: Members[*].Name}", ".length(Members)", ".Items[*].Tags[]", ".[Ptr, Name]", ".Ptr.[Name]", ".[!Ptr, Ptr || Name, Ptr && Name]", ".Ptr.Ptr", ".[!@, @ && Name]"}
 var richEnd = []string{"", " | length(@)", " | [0]", " | [*].[Name]", " | [*].{n: Name}", " | [?@]", " | [-1].Name", " | [][]"}
 
 // TestC18Rich: navigational shape grid on a rich struct document (pointers with
